@@ -369,6 +369,15 @@ func walk(l lister, c pcase, fail func(k, m string), tokens map[string]bool) {
 			fail(key("page-too-large"), fmt.Sprintf("page of %d items for page size %d", len(p.items), size))
 			return
 		}
+		if c.Token == "" && len(want) <= 10 {
+			// the same request once more (a client that retries, two clients in step): a token stands for a place in
+			// the listing, asking twice gives the same page twice
+			p2, err2, pan2 := call(tok)
+			if pan2 != nil || err2 != nil || fmt.Sprint(p2.items) != fmt.Sprint(p.items) || p2.next != p.next || p2.total != p.total {
+				fail(key("page-not-repeatable"), fmt.Sprintf("page %d asked for twice with the same token %q: first %v next %q, then %v next %q (error %v, panic %v)", n, tok, short(p.items), p.next, short(p2.items), p2.next, err2, pan2))
+				return
+			}
+		}
 		if c.Then != 0 {
 			size = c.Then // a client may ask for a different page size on every call
 		}
